@@ -1,4 +1,4 @@
-"""BOUNDED stand-in (thorough tier of C05, C13, C16; labelled bounded, never counted as proved) for the contract unit `repeats` ASSUMES of the
+"""BOUNDED stand-in (thorough tier of C05, C10, C13, C16; labelled bounded, never counted as proved) for the contract unit `repeats` ASSUMES of the
 detection stage of cluster.rs (three itertools functions outside the Verus dialect): a #[cfg(test)] module is appended to a scratch copy of the
 current tree (never to /repo) and enumerates every list of plain graphemes over {a,b} up to length LEN2 and over {a,b,c} up to length LEN3 under three
 threshold settings.  It checks (1) `detection_ok` on what the real detection functions return and (2) that the whole conversion returns a list that
@@ -12,7 +12,7 @@ def run(repo, build_dir, timeout=1500):
     t0 = time.time()
     res = {'name': 'detection-contract', 'label': 'bounded', 'counted_as_proved': False,
            'bound': 'all lists of plain graphemes over {a,b} up to length %d and over {a,b,c} up to length %d; (minimum repetitions, minimum substring length) in {(1,1), (2,1), (1,2)}' % (LEN2, LEN3),
-           'claim': 'collect_repeated_substrings -> create_ranges_of_repetitions -> coalesce_repetitions deliver `detection_ok` (the precondition unit repeats assumes), and convert_repetitions returns a list that stands for the same symbols'}
+           'claim': 'collect_repeated_substrings -> create_ranges_of_repetitions -> coalesce_repetitions deliver `detection_ok` (the precondition unit repeats assumes), and convert_repetitions returns a list that stands for the same symbols; two runs (two hash maps with different keys) detect the same ranges'}
     try:
         shutil.copytree(os.path.join(repo, 'src'), os.path.join(work, 'src'))
         for f in ('Cargo.toml', 'Cargo.lock'): shutil.copy(os.path.join(repo, f), work)
